@@ -144,6 +144,12 @@ def build(tier, seed):
                          "symbolic (len<=2)", budget_s=300, replay=rpw, functions=FUNCS + ("cutplace.validio.Writer.write_row",
                                                                                           "cutplace.validio.Writer.write_rows"),
                          stubs=("S-CSVW _compat.csv_writer -> recorder", "S-FMT")))
+    mkw2, rpw2 = make_delimited_write(3, (2, 2, 2), False, 2, False)
+    queries.append(Query("C07/writer-header/header=2", "writer-header", mkw2,
+                         "Writer under a CID with Header 2: the first two rows written are header rows whatever they contain "
+                         "(line breaks inside a cell included), the third row is validated; cells symbolic (len<=2)",
+                         budget_s=300, replay=rpw2, functions=FUNCS + ("cutplace.validio.Writer.write_row",),
+                         stubs=("S-CSVW _compat.csv_writer -> recorder", "S-FMT")))
     mk, rp = make_until()
     queries.append(Query("C07/until-option", "until", mk, "--until value n: every integer", budget_s=120,
                          expect=("exit2", "all", "zero", "some"), replay=rp, functions=FUNCS,
